@@ -9,15 +9,29 @@
 namespace etl::detail {
 
 template <typename T>
+struct variant_alternative_array {
+    T x[1];
+};
+
+/// An alternative Ti is a candidate for an argument of type T only if
+/// `Ti x[] = {etl::forward<T>(t)};` is well-formed, i.e. the conversion exists
+/// and is not narrowing (P0608R3).
+template <typename T, typename Ti>
+concept variant_alternative_candidate = requires { variant_alternative_array<Ti>{{etl::declval<T>()}}; };
+
+template <typename Ti>
 struct variant_alternative_selector_single {
-    auto operator()(T /*t*/) const -> T;
+    template <typename T>
+        requires variant_alternative_candidate<T, Ti>
+    auto operator()(Ti /*t*/, T&& /*original*/) const -> Ti;
 };
 
 template <typename... Ts>
 inline constexpr auto variant_alternative_selector = etl::overload{variant_alternative_selector_single<Ts>{}...};
 
 template <typename T, typename... Ts>
-using variant_alternative_selector_t = decltype(variant_alternative_selector<Ts...>(etl::declval<T>()));
+using variant_alternative_selector_t
+    = decltype(variant_alternative_selector<Ts...>(etl::declval<T>(), etl::declval<T>()));
 
 } // namespace etl::detail
 
